@@ -86,8 +86,10 @@ def handle (op : String) (j : Json) : Option (R Json) :=
         let shape ← ints2 pj "shape"; let pshape ← ints2 pj "prop_shape"
         let osf := Float.ofInt os
         -- `_dft_alpha(dx, du, wavelength, z, oversample)`
-        let αr := (dx.1 * du.1) / (w.wavelength * w.focal * osf)
-        let αc := (dx.2 * du.2) / (w.wavelength * w.focal * osf)
+        -- the generated `_dft_alpha` call of propagate_dft
+        let al := dftAlpha dx.1 dx.2 du.1 du.2 w.wavelength w.focal os
+        let αr := al.1
+        let αc := al.2
         let shapeOut := (shape.1 * os, shape.2 * os)
         let propOut := (pshape.1 * os, pshape.2 * os)
         let out : List (Fld CF) := propagateDftNoTilt w.data αr αc shapeOut propOut
